@@ -388,6 +388,27 @@ class Counterpoint(Stream):
                 yield dict(case, voices=case["voices"][:i] + [v[:-1]] + case["voices"][i + 1:])
 
 
+def fix_cp_relative(score):
+    """only scale steps may be relative in a counterpoint voice (su / sd), and only after a scale or absolute note of the same
+    part on the timeline (parse_relative_to_absolute keeps no reference across h notes, rests do not reset it)"""
+    seen = {}
+    out = []
+    for c in score:
+        parts = []
+        for nm, notes in c["parts"]:
+            ns = []
+            for x in notes:
+                x = dict(x)
+                if x.get("dir") and (x["kind"] != "s" or not seen.get(nm)):
+                    x.pop("dir")
+                if x["kind"] in "sa":
+                    seen[nm] = True
+                ns.append(x)
+            parts.append([nm, ns])
+        out.append(dict(c, parts=parts))
+    return out
+
+
 class CounterpointScore(Stream):
     name = "counterpoint_on_score"
     checker = None
@@ -399,14 +420,14 @@ class CounterpointScore(Stream):
             names = rng.sample(sg.NAMES, rng.randrange(2, 4))
             score = []
             for _ in range(rng.randrange(1, 5)):
-                c = sg.rand_rchord(rng, names, rel=0, accs=False, systems="sssha", figs=INV_FIGS)
+                c = sg.rand_rchord(rng, names, rel=0.25 if i % 3 == 0 else 0, accs=False, systems="sssha", figs=INV_FIGS)
                 have = {nm for nm, _ in c["parts"]}
                 for nm in names:
                     if nm not in have:
                         c["parts"].append([nm, [sg.rand_rnote(rng, rel=0, accs=False, systems="sssha")]])
                 c["parts"].sort(key=lambda p: names.index(p[0]))
                 score.append(c)
-            score = sg.equalize(score)
+            score = fix_cp_relative(sg.equalize(score))
             fixed = [nm for nm in names if rng.random() < 0.4] or [names[0]]
             if len(fixed) == len(names):
                 fixed = fixed[:-1]
@@ -452,7 +473,7 @@ class CounterpointScore(Stream):
             if all([nm for nm, _ in c["parts"]] == names for c in s) and len(names) >= 2:
                 fx = [f for f in case["fixed"] if f in names]
                 if fx and len(fx) < len(names):
-                    yield dict(case, score=sg.equalize(s), fixed=fx)
+                    yield dict(case, score=fix_cp_relative(sg.equalize(s)), fixed=fx)
 
 
 def streams():
